@@ -123,7 +123,11 @@ class ReadTagFragmentedResponsePacket(ReadTagResponsePacket):
 
     def _parse_reply(self):
         super()._parse_reply(dont_parse=True)
-        if self.data[:2] == STRUCTURE_READ_REPLY:
+        if not self.data:
+            # short or unparsable reply: nothing to split, the error is already recorded
+            self.value_bytes = b""
+            self._data_type = b""
+        elif self.data[:2] == STRUCTURE_READ_REPLY:
             self.value_bytes = self.data[4:]
             self._data_type = self.data[:4]
         else:
